@@ -15,8 +15,8 @@ PLANS = {
 }
 
 PLANS["C02"] = {
-    "quick": [J("restart", "c=2,f=1", 90)],
-    "thorough": [J("restart", "c=3,f=2,p=1", 900)],
+    "quick": [J("restart", "c=2,f=1", 90), J("restartwrap", "c=2", 40)],
+    "thorough": [J("restart", "c=3,f=2,p=1", 900), J("restartwrap", "c=3,f=1,p=1", 600)],
 }
 
 PLANS["C03"] = {
@@ -24,13 +24,13 @@ PLANS["C03"] = {
     "thorough": [J("qos2out", "f=3,c=2,p=1", 900)],
 }
 PLANS["C05"] = {
-    "quick": [J("puborder", "p=1,f=1,s=1", 90)],
-    "thorough": [J("puborder", "p=3,f=2,s=2", 900)],
+    "quick": [J("puborder", "p=1,f=1,s=1", 90), J("restartwrap", "c=1,f=1", 40)],
+    "thorough": [J("puborder", "p=3,f=2,s=2", 900), J("restartwrap", "c=2,f=1,p=1", 400)],
 }
 
 PLANS["C08"] = {
-    "quick": [J("writers", "p=1,f=1", 30), J("writers", "f=2", 60)],
-    "thorough": [J("writers", "p=2,f=2,s=1", 900)],
+    "quick": [J("writers", "p=1,f=1", 30), J("writers", "f=2", 60), J("writers2", "p=2,f=1", 60)],
+    "thorough": [J("writers", "p=2,f=2,s=1", 900), J("writers2", "p=3,f=1,s=1,t=1", 600)],
 }
 PLANS["C10"] = {
     "quick": [J("wedge", "p=1,f=1", 45), J("wedge", "f=2", 45)],
@@ -73,8 +73,8 @@ PLANS["C13"] = {
 }
 
 PLANS["C09"] = {
-    "quick": [J("c09-requests", "quick", 120, test="TestE3"), J("c09-sizes", "quick", 120, test="TestE3", shards=4), J("c09-connect", "quick", 120, test="TestE3")],
-    "thorough": [J("c09-requests", "thorough", 600, test="TestE3"), J("c09-sizes", "thorough", 900, test="TestE3", shards=4), J("c09-connect", "thorough", 600, test="TestE3")],
+    "quick": [J("c09-requests", "quick", 120, test="TestE3"), J("c09-sizes", "quick", 120, test="TestE3", shards=4), J("c09-connect", "quick", 120, test="TestE3"), J("c17-slots", "quick", 120, test="TestE3", shards=1)],
+    "thorough": [J("c09-requests", "thorough", 600, test="TestE3"), J("c09-sizes", "thorough", 900, test="TestE3", shards=4), J("c09-connect", "thorough", 600, test="TestE3"), J("c17-slots", "thorough", 120, test="TestE3", shards=1)],
 }
 
 PLANS["C15"] = {
